@@ -74,7 +74,7 @@ fn conc_phase(s: &Scen, out: &mut Vec<String>) -> bool {
     for e in &s.csched {
         let p: Vec<&str> = e.split(':').collect();
         let mult = if p[2] == "all" { shard_count() } else { p[2].parse().unwrap() };
-        sched.push(sched::Ev { tid: p[0].parse().unwrap(), kind: p[1].parse().unwrap(), mult });
+        sched.push(sched::Ev { tid: p[0].parse().unwrap(), kind: p[1].parse().unwrap(), mult, attempt: p.len() > 3 });
     }
     sched::install(sched);
     let (dtx, drx) = std::sync::mpsc::channel::<(usize, Vec<String>)>();
